@@ -164,6 +164,12 @@ def run(ctx):
                     ("empty2d_wrong", np.zeros((0, k + 1), dtype=int), f"(IntRows {k + 1}%nat [])"),
                     ("int32", np.array([good], dtype=np.int32), f"(IntRows {k}%nat {coq_list([zlist(good)])})"),
                 ]
+                # unsigned integer dtypes are integer arrays too: a decreasing row must be rejected (np.diff on unsigned data wraps around)
+                if min(good) >= 0:
+                    rev = tuple(reversed(good))
+                    for udt in (np.uint8, np.uint32, np.uint64):
+                        mal.append((f"{np.dtype(udt).name}-valid", np.array([good], dtype=udt), f"(IntRows {k}%nat {coq_list([zlist(good)])})"))
+                        mal.append((f"{np.dtype(udt).name}-decreasing", np.array([rev], dtype=udt), f"(IntRows {k}%nat {coq_list([zlist(rev)])})"))
                 for tag, arg, term in mal:
                     st, val = classify(sc, arg)
                     ctx.count("malformed", tag + ":" + st.split(":")[0])
